@@ -248,3 +248,21 @@ Definition static_mangle (c : cfg) : chains :=
 Definition static_filter (c : cfg) : chains :=
   [ (CH_FORWARD, filter_forward c); (CH_INPUT, filter_input c); (CH_WL_TO_HOST, wl_to_host c);
     (CH_FS_IN, failsafe_in TFilter c); (CH_OUTPUT, filter_output c); (CH_FS_OUT, failsafe_out TFilter c) ].
+
+(* ------------------------------------------------------------------ hook wiring (int_dataplane.go setUpIptablesNormal) *)
+(* (table, kernel chain, appended?, rules): what Felix puts into the kernel's own chains, in call order.
+   insert-or-append = at the head of the kernel chain; append = at its end.  table: 0 raw, 1 mangle, 2 filter. *)
+Definition T_RAW : N := 0.
+Definition T_MANGLE : N := 1.
+Definition T_FILTER : N := 2.
+Definition CH_POSTROUTING := "cali-POSTROUTING"%string.
+Definition hookcall := (N * string * bool * list irule)%type.
+Definition hook_wiring (c : cfg) : list hookcall :=
+  [ (T_RAW, "PREROUTING"%string, false, [R [] (AJump CH_PREROUTING)]);
+    (T_RAW, "OUTPUT"%string, false, [R [] (AJump CH_OUTPUT)]);
+    (T_FILTER, "FORWARD"%string, false, [R [] (AJump CH_FORWARD)]);
+    (T_FILTER, "INPUT"%string, false, [R [] (AJump CH_INPUT)]);
+    (T_FILTER, "OUTPUT"%string, false, [R [] (AJump CH_OUTPUT)]);
+    (T_FILTER, "FORWARD"%string, true, forward_append c);
+    (T_MANGLE, "PREROUTING"%string, false, [R [] (AJump CH_PREROUTING)]);
+    (T_MANGLE, "POSTROUTING"%string, false, [R [] (AJump CH_POSTROUTING)]) ].
